@@ -360,6 +360,7 @@ def frac_to_np(ty, p):
 
 
 _libm = None
+_libstdcxx = None
 
 
 def libm_call(fn, ty, args):
@@ -448,6 +449,18 @@ class Num:
                 if src.ty == 'f80':
                     raise ModeError('NUM: bitcast f80')
                 return int.from_bytes(NPT[src.ty](a[0]).tobytes(), 'little')
+        if op == 'call' and a[0] == 'hashbytes':
+            import ctypes
+            global _libstdcxx
+            if _libstdcxx is None:
+                _libstdcxx = ctypes.CDLL('libstdc++.so.6')
+            f = _libstdcxx._ZSt11_Hash_bytesPKvmm
+            f.restype = ctypes.c_size_t
+            f.argtypes = [ctypes.c_char_p, ctypes.c_size_t, ctypes.c_size_t]
+            nb = tm.ibits(x.args[1].ty) // 8
+            return int(f(int(a[1]).to_bytes(nb, 'little'), nb, int(a[2])))
+        if op == 'call':
+            raise ModeError('NUM: call ' + str(a[0]))
         bits = tm.ibits(ty)
         mask = (1 << bits) - 1
 
